@@ -31,6 +31,13 @@ TABLE = {
  "C01-b": ("C01", "permute_dims passes the index tuples to blockwise the other way round (output labelled range(ndim), input labelled axes) while the block function still applies `axes`: needs >= 3 dims and a permutation that is not its own inverse ((1,2,0), moveaxis(x,0,-1) on 3-d, vecdot(axis=0) on 3-d) -> wrong values / wrong shape, mostly silently (Zarr truncates oversized edge blocks)"),
  "C02-b": ("C02", "make_fused_back_key_function memoizes each predecessor key function for the duration of one task (functools.cache): needs a fused consumer that asks the SAME predecessor chunk twice (repeated argument) where that predecessor's key function returns an iterator (reduction, concat) -> both arguments share one drained iterator: AxisError for reductions, silently wrong values for concat"),
  "C11-b": ("C11", "region store skips the source rechunk when the source chunks are a whole multiple of the target's ('already line up'): needs a region store whose source chunk is a larger multiple of the target chunk (incl. single-block sources and sharded targets) -> tasks enumerated over target blocks read non-existent / wrong source blocks: silent corruption (truncated oversized blocks) or IndexError mid-run"),
+ "C08-c": ("C08", "failure path of async_map_unordered pops the failed task's pairing entry (backups.pop instead of .get): needs backups on, a straggler whose twin fails while the other twin is still running and then succeeds (or both finishing in one wake-up with the failing twin first) -> the clean-up `del backups[...]` raises KeyError although every input had a successful attempt"),
+ "C05-c": ("C05", "the alignment rechunk before storing into an existing target is skipped whenever a region is given ('the region branch aligns below'): needs a region made only of slice(None) (which takes the non-region branch) and source chunks that are not a multiple of the target's -> several tasks write the same stored chunk"),
+ "C15-c": ("C15", "make_blockwise_back_key_function keeps each argument's coordinate map in a dict keyed by ARRAY NAME: needs the same array at two argument positions with different index tuples (matmul(a, a), outer(v, v), tensordot(a, a)) and more than one block -> the earlier position is addressed with the later position's map"),
+ "C19-c": ("C19", "broadcast_to builds its template with empty_virtual_array without spec=x.spec: needs an explicit Spec different from the default config and an operation that really broadcasts through broadcast_to (broadcast_to, broadcast_arrays, meshgrid, vecdot with batch broadcasting) -> 'Arrays must have same spec'"),
+ "C12-c": ("C12", "_repeat cuts its block in steps of the INPUT block length instead of the chunk size: needs a repeated axis whose length is not a multiple of the chunk size (partial last input chunk) -> blocks of the wrong length are written: broadcast silently (length 1), ValueError at compute, or truncated"),
+ "C06-c": ("C06", "CubedArrayProxy.open() caches the opened array per proxy (dropped on pickling): needs an array that was computed in the client process and is then stored (to_zarr / store re-target the same proxy) with an in-process executor -> tasks write through the stale handle into the old intermediate array; the user's target keeps fill values; the processes executor is unaffected"),
+ "C03-c": ("C03", "_rechunk sizes its extra_projected_mem from the largest TARGET chunk instead of the copy region: needs a rechunk whose copy region spans several store chunks (consolidated writes), a split along the last axis, the default compressor and Zarr's concurrent chunk encoding -> ~108 MB traced vs 99 MB projected; with compressor none or async.concurrency=1 there is no excess"),
 }
 # seeds that were re-evaluated after strengthening: confirm.log holds the LATER run; what the first evaluation gave is recorded here
 FIRST = {
@@ -39,6 +46,9 @@ FIRST = {
  "C01-b": {"C01": {"exit": 0, "violation_lines": 0}},
  "C02-b": {"C02": {"exit": 0, "violation_lines": 0}},
  "C17-b": {"C17": {"exit": 0, "violation_lines": 0}, "C12": {"exit": 0, "violation_lines": 0}},
+ "C05-c": {"C05": {"exit": 0, "violation_lines": 0}},
+ "C06-c": {"C06": {"exit": 0, "violation_lines": 0}},
+ "C15-c": {"C15": "not run before strengthening (the report named the blind spot: patterns used distinct array names; miss by construction)"},
  "C12-a": {"C12": "not run before strengthening (no scenario could reach the change: miss by inspection)"},
  "C19-a": {"C19": "not run before strengthening (miss by inspection)"},
  "C06-a": {"C06": "not run before strengthening (miss by inspection)"},
